@@ -607,3 +607,14 @@ package lfs
 //@   modifies heap
 //@   at call lfs.DecodePointer:1 assert size < blobSizeCutoff
 //@   at call fmt.Sprintf:2 assert size >= blobSizeCutoff
+
+// C05: reading `git log -p` for pointers.  A pointer line of the diff goes into
+// the pointer text being collected when it belongs to the side that is being
+// listened to OR is an unchanged context line - every context line, not only
+// the leading one: a modification that keeps the size leaves "size N" as
+// context, and without it the pointer (and its object's retention) is lost.
+//@ func (*logScanner).scan
+//@   props C05
+//@   requires @inv s != nil && s.pointerData != nil && s.commitHeaderRegex != nil && s.fileHeaderRegex != nil && s.fileMergeHeaderRegex != nil && s.pointerDataRegex != nil
+//@   at call (*bytes.Buffer).WriteString:1 assert @C05 arg0__ == s.pointerData && arg1__ == line[1:len(line)]
+//@   loop 1 iter defined(line) ==> (isnil(re_submatch(s.commitHeaderRegex, line)) && isnil(re_submatch(s.fileHeaderRegex, line)) && isnil(re_submatch(s.fileMergeHeaderRegex, line)) && iter(s.currentFileIncluded) && !isnil(re_submatch(s.pointerDataRegex, line)) && (typed(re_submatch(s.pointerDataRegex, line), "[]string")[1][0] == 32 || typed(re_submatch(s.pointerDataRegex, line), "[]string")[1][0] == s.dir) ==> wbytes(s.pointerData) == scat(scat(iter(wbytes(s.pointerData)), line[1:len(line)]), "\n"))
